@@ -192,9 +192,17 @@ class Abstraction:
         self.reg = {}            # data sheet name -> list of ids
         self.reg_fields = {}     # data sheet name -> field names
         self.templates = {}      # sheet -> argdefs
-        self.triggers = []
-        self.referenced = []
+        self.trigger_sheets = {}  # trigger_parsers: sheet name -> flow cells (a later row of the same sheet replaces)
+        self.campaigns = {}      # campaign_parsers: campaign name -> flows of its events (a later row of the same name replaces)
         self.created = []
+        self._cur_refs = []      # flow names referred to by the top-level instance being read
+        self.create_at = []      # (index sheet, row number) of each entry of create_rows
+        self.flow_names = []     # per entry of create_rows: the flow names it defines
+        # position classes (see position_of()): what a fault at a sheet / an index row sits in
+        self.sheet_pos = {}
+        self.index_pos = {}
+        self._defs = {}
+        self.replaced_only_refs = []  # flow names that only replaced definitions refer to (unknown to the uuid dictionary)
         self.flow_uuids = []
         self.group_uuids = []
         self.used_sheets = []    # flow sheets that are parsed at least once (top level or inserted)
@@ -208,7 +216,7 @@ class Abstraction:
 
     # -- index walk (order of _process_content_index_table)
     def walk_index(self, name="content_index", seen=()):
-        for row in self.sheets[name]["rows"]:
+        for row_no, row in enumerate(self.sheets[name]["rows"]):
             if self.dead:
                 return
             if row.get("status", "").strip() == "draft":
@@ -234,22 +242,67 @@ class Abstraction:
                 self.templates[names[0]] = [self.argdef(d) for d in as_list(split2(row.get("template_arguments", ""))) if d != ""]
             elif t == "create_flow":
                 self.create_rows.append(row)
+                self.create_at.append((name, row_no))
             elif t == "create_campaign":
+                # create_campaign_parser: the sheet is read at once; the parser is stored under the campaign's
+                # name — a later row producing the same name replaces it and only the last one is ever parse()d
                 self.index.append({"k": "ref", "name": names[0]})
                 if names[0] not in self.sheets:
                     self.dead = True
                     return
-                for r in self.sheets[names[0]]["rows"]:
-                    if r.get("flow", "").strip():
-                        self.referenced.append(r["flow"].strip())
+                cname = row.get("new_name", "").strip() or names[0]
+                self.campaigns[cname] = [r["flow"].strip() for r in self.sheets[names[0]]["rows"] if r.get("flow", "").strip()]
+                self._dup("campaign definition", cname, [names[0]], (name, row_no))
             elif t == "create_triggers":
+                # stored under the sheet name: listing a sheet twice keeps one parser (at the first position)
                 self.index.append({"k": "ref", "name": names[0]})
                 if names[0] not in self.sheets:
                     self.dead = True
                     return
-                self.triggers += [r.get("flow", "").strip() for r in self.sheets[names[0]]["rows"]]
+                self.trigger_sheets[names[0]] = [r.get("flow", "").strip() for r in self.sheets[names[0]]["rows"]]
+                self._dup("trigger sheet", names[0], [names[0]], (name, row_no))
             else:
                 self.unsupported.append("index row type " + t)
+
+    # -- position classes: is the thing defined here defined again by a later index row / already by an earlier one
+    LATER, EARLIER, BOTH = "redefined by a later row", "redefines an earlier row", "redefines and is redefined (or shared by both)"
+    KINDS = ("flow definition", "campaign definition", "trigger sheet")
+
+    def _dup(self, kind, key, sheets, at):
+        """register a definition of `key` (a flow / campaign name, a trigger sheet) made by index row `at` from `sheets`"""
+        prev = self._defs.setdefault((kind, key), [])
+        for (sh2, at2) in prev:
+            for s2 in sh2:
+                self.sheet_pos.setdefault(s2, set()).add((kind, self.LATER))
+            self.index_pos.setdefault(at2, set()).add((kind, self.LATER))
+        if prev:
+            for s1 in sheets:
+                self.sheet_pos.setdefault(s1, set()).add((kind, self.EARLIER))
+            self.index_pos.setdefault(at, set()).add((kind, self.EARLIER))
+        prev.append((list(sheets), at))
+
+    def position_of(self, site) -> str:
+        """position class of an injection site (as described by the fault generators): '' for an ordinary position,
+        else e.g. 'flow definition redefined by a later row' / 'campaign definition redefines an earlier row'"""
+        out = set()
+        sh = site.get("sheet")
+        for s1 in (sh if isinstance(sh, list) else [sh] if sh else []):
+            out |= self.sheet_pos.get(s1, set())
+        if "index" in site and "row" in site and isinstance(site["row"], int):
+            out |= self.index_pos.get((site["index"], site["row"]), set())
+            rows = self.sheets.get(site["index"], {"rows": []})["rows"]
+            if site["row"] < len(rows) and rows[site["row"]].get("type") == "template_definition":
+                # a fault in the argument definitions sits in every instantiation of the template
+                out |= self.sheet_pos.get((split1(rows[site["row"]].get("sheet_name", "")) or [""])[0], set())
+            how = site.get("how", "")
+            if how.startswith("delete sheet file "):
+                out |= self.sheet_pos.get(how[len("delete sheet file "):], set())
+        labels = []
+        for kind in self.KINDS:
+            ps = {p for k, p in out if k == kind}
+            if ps:
+                labels.append(kind + " " + (self.BOTH if len(ps) > 1 else ps.pop()))
+        return " + ".join(labels)
 
     @staticmethod
     def argdef(d):
@@ -307,6 +360,8 @@ class Abstraction:
 
     # -- flows
     def inst(self, sheet_name, data_sheet, data_row_id, args_cell, new_name, nested=False):
+        if not nested:
+            self._cur_refs = []
         base = new_name or sheet_name
         name = f"{base} - {data_row_id}" if data_sheet and data_row_id else base
         ctx = self.reg_fields.get(data_sheet, []) if data_sheet and data_row_id else []
@@ -325,8 +380,11 @@ class Abstraction:
         args = [a if isinstance(a, str) else ";".join(a) for a in args]
         if args == [""]:
             args = []
-        return {"name": name, "dataSheet": data_sheet, "dataRowId": data_row_id, "ctx": ctx,
-                "defs": self.templates.get(sheet_name, []), "args": args, "rows": rows}
+        res = {"name": name, "dataSheet": data_sheet, "dataRowId": data_row_id, "ctx": ctx,
+               "defs": self.templates.get(sheet_name, []), "args": args, "rows": rows}
+        if not nested:
+            res["refs"] = self._cur_refs
+        return res
 
     def collect_uuids(self, rows):
         st = row_status(rows)
@@ -336,7 +394,7 @@ class Abstraction:
             t = r.get("type", "")
             oid = r.get("obj_id", "").strip()
             if t == "start_new_flow":
-                self.referenced.append(r.get("message_text", "").strip())
+                self._cur_refs.append(r.get("message_text", "").strip())
                 if oid:
                     self.flow_uuids.append([r.get("message_text", "").strip(), oid])
             elif t in ("add_to_group", "remove_from_group", "split_by_group") and oid:
@@ -372,6 +430,21 @@ class Abstraction:
                     insts = [self.inst(n, ds, rid, row.get("template_arguments", ""), nn)]
                 self.created += [i["name"] for i in insts]
                 flows.append({"dataSheet": ds, "dataRowId": rid, "insts": insts})
+            # which flow names each create_flow row defines (for the position classes)
+            for row, at in zip(self.create_rows, self.create_at):
+                n = split1(row.get("sheet_name", ""))[0]
+                ds = row.get("data_sheet", "").strip()
+                rid = row.get("data_row_id", "").strip()
+                base = row.get("new_name", "").strip() or n
+                names = [f"{base} - {i}" for i in self.reg.get(ds, [])] if ds and not rid else [f"{base} - {rid}" if ds and rid else base]
+                self.flow_names.append(names)
+                for nm in names:
+                    self._dup("flow definition", nm, [n], at)
+        insts = [i for fd in flows for i in fd["insts"]]
+        last = {i["name"]: k for k, i in enumerate(insts)}
+        known = set(last) | {r for k, i in enumerate(insts) if last[i["name"]] == k for r in i["refs"]} \
+            | {n for n, _u in self.flow_uuids} | {f for fl in self.campaigns.values() for f in fl}
+        self.replaced_only_refs = sorted({r for i in insts for r in i["refs"]} - known)
         return {
             "hasIndex": True,
             "sheets": sorted(self.sheets),
@@ -382,8 +455,10 @@ class Abstraction:
             "flows": flows,
             "flowUuids": self.flow_uuids,
             "groupUuids": self.group_uuids,
-            "flowNames": self.created + self.referenced,
-            "triggers": self.triggers,
+            # the created flows that survive redefinition and what they refer to are worked out by the model
+            # (Cli.knownFlowNames) from the instances' names / refs; here: the surviving campaigns' flows
+            "flowNames": [f for fl in self.campaigns.values() for f in fl],
+            "triggers": [f for fl in self.trigger_sheets.values() for f in fl],
         }
 
 
